@@ -236,26 +236,26 @@ CLAIMED.update({
 
 # what was added to the correspondence side while testing the checks with seeded changes (DESIGN.md section 13)
 ADDED = {
-    "C01": "Also: the audit-failure profile, reserved-prefix and path-like names, monitor changes_only_granted (whichever secrets a call changed, the caller holds the action on exactly those), and a concurrent leg in which a caller without a grant makes the same requests at the same time and must be refused every time. Sixth round: names of 256/8192 bytes and neighbours with grants on the exact long names; a call that returns neither value nor error, panics or never returns is an observation (result_is_specified). Seventh round: forwarding headers and loopback peers with a WhoIs that answers by the address asked.",
+    "C01": "Also: the audit-failure profile, reserved-prefix and path-like names, monitor changes_only_granted (whichever secrets a call changed, the caller holds the action on exactly those), and a concurrent leg in which a caller without a grant makes the same requests at the same time and must be refused every time. Sixth round: names of 256/8192 bytes and neighbours with grants on the exact long names; a call that returns neither value nor error, panics or never returns is an observation (result_is_specified). Seventh round: forwarding headers and loopback peers with a WhoIs that answers by the address asked. T1 also ties the property's central functions statement by statement (fact_*_as_transcribed / fact_*_shape theorems in the property file).",
     "C02": "Also: the save-failure profile, the caller's buffer overwritten as soon as Put returns, near-duplicate values, the bytes of any surviving version, whitespace-decorated names. Sixth round: clean restarts inside histories (the numbering goes on), generator aimed at the version counter, calls under a watchdog (call_returns). Seventh round: sparse observation of the served state; reads_total (proved of the specification: reads_total_on_model); all 22 database-family monitor clauses proved of the specification's own step (all_monitor_clauses_sound); the four mutators of db/kv.go tied statement by statement (fact_mutators_as_transcribed).",
-    "C03": "Also: reopened copies with modes 0600/0644/0640/0400, a multi-megabyte database, order independence of the clear document (schema_order_independent), and a concurrent leg (at quiescence the file holds what the server serves). Sixth round: restarts inside histories, stray files under temporary names next to the database, crafted schema-v1 files with versions beyond 2^31 sealed by the harness's own writer. Seventh round: the database opened through a relative symbolic link from another working directory.",
-    "C04": "Also: EACCES/EPERM in the fault enumeration, files that already exist with mode 0644, a follow-up save by the restarted process after every kill, and concurrent histories during which the state directory vanishes for moments. Sixth round: after every failed save a twin server on a copy of the file gets every later call and must answer alike (fault_leaves_served_state).",
-    "C05": "Also: save failures inside the crypto histories (the key-encryption key must not be consulted), truncation to 0/1/2/len-1 bytes always, a reopen half way through every history, a save traced on a file that exists with mode 0644. Sixth round: one database over years of virtual time with the key service unreachable once open (kek_only_at_open). Seventh round: the backup family (what lies beside the database, with which modes, during an upload).",
-    "C06": "Also: short writes (the device accepts half a record) followed by a probe call - every complete line of the stream must be one whole record (theorem log_lines_are_whole_records over the latched encoder; fresh_encoder_glues for the unlatched one); whether the Sync of a call's record had completed when the call returned, sequentially and on the concurrent calls' clock; exactly the required records over HTTP. Sixth round: calls after the audit log was closed must be refused and change nothing (fail_closed); very long names in records. Seventh round: two writers on one log file; a log truncated in place between records.",
-    "C07": "Also: three more exhaustive alphabets ({a,b,*}, backslash with E and Q, percent with s and an open parenthesis), path-like names, panics as observations, and several hundred patterns evaluated from eight goroutines at once. Seventh round: rule sets decoded from JSON, three-pattern rules, names containing a whole pattern.",
-    "C08": "Also: WhoIs failures that are context errors, media types that merely start with application/json, status tables and the get dispatch regenerated from the source (status_tables, generated_get_dispatch), wire bodies (Model/Wire). Sixth round: the body classifier is the harness's own mirror of the request shapes; versions beyond 32 bits, negative, fractional, quoted; every request is answered (watchdog). Seventh round: forwarding headers; loopback peers.",
-    "C09": "Also: a gateway error on the client's first exchange, and concurrent histories (a conditional get naming V never receives V; a non-linearizable history that becomes linearizable without its conditional gets is blamed on them). Sixth round: a call or request that never returns is reported with the calls under way (four_outcomes). Seventh round: a compressing proxy on the client route; returned values wiped by the caller.",
-    "C10": "Also: service failures that wrap context.DeadlineExceeded while every context is alive, cancellation (not only deadlines) during construction, construction under a watchdog, empty values in caches, untidy prefixes for struct-tagged names. Sixth round: outages of 35-95 s at construction with a live context; a crash inside the code under test is an observation and the partial trace is judged (init_complete). Seventh round: cache_or_file_suffices for file-backed clients with a cache.",
-    "C11": "Also: same-bytes versions, a poll round abandoned by its starter and joined by a second caller, a poller watchdog, freshness of every handle after a completed refresh, cache_holds_same; the ticker period as written in the source, translated to Lean on every run (gen_pollPeriod, theorem cadence_generated over all intervals and all draws). Sixth round: a second store in the process while the first store's poll is held; the real ticker under virtual time (cadence) compared with the generated period expression. Seventh round: cadence with a slow service.",
-    "C12": "Also: the late second flight, a held poll abandoned while the service moves on, retained slices that must never change, a failed updater lookup after which readers must still progress.",
-    "C13": "Also: transient cache write failures, a slow synchronised cache with a cache-behind check at every quiescent point, files that exist with mode 0644 or longer contents. Sixth round: after every kill of a cache write a shorter document is written and must be exactly the file's content. Seventh round: polling-disabled configuration (flush_after_init); a failing lookup concurrent with successful ones.",
-    "C14": "Also: histories with vanishing state directory (the search admits 'internal error, nothing changed' for calls whose save may have failed), list-heavy histories by an exact-name caller under lock contention, several callers putting the same new bytes at once, empty values. Sixth round: half of the histories restart the database between preparation and the concurrent calls; every_call_returns. Seventh round: the legacy capability name in half of the concurrent HTTP histories.",
-    "C15": "Also: a second model with two concurrent getters (concurrent_gets_no_lost_update, unlocked_gets_lose_update), installs performed from inside the initial build and from inside a rebuild, rollbacks to earlier versions, a failing cache, a builder held while installs and Gets arrive; a third model with any number of updaters registered at any moment (every_updater_no_lost_update, late_registration_loses_update) tied to the source by the extracted order watch/read/build and the under-lock scan of register/install/notify (fact_watch_order). Sixth round: three updaters created at the same moment on a name that has to be looked up. Seventh round: an updater whose T is an interface type (closers and non-closers alternate); Model.Watchers carries every updater ever created (stale_list_loses_updater).",
-    "C16": "Also: the defect D8 (a request failing with a context-flavoured error of its own was retried) found by its monitor no_auto_retry and kept as Mode.beforeD8 (d8_original_retries); cancellations carrying a cause; NewUpdater and Fields.Apply as routes to unknown names with lookups disabled. Sixth round: a second store looking up the same name at the same time; a patient caller among callers whose contexts have ended. Seventh round: a watchdog in the synctest/real-time families (a call that never returns is reported with what was under way).",
-    "C17": "Also: uploads that never answer, 90-second uploads alternating with quick ones, a racing write followed by a long quiet stretch, histories that start on a reopened database, an occupied key answering 412 to conditional writes. Sixth round: the file shrinks between uploads; the task starts off the minute boundary. Seventh round: failed uploads answered 500, 403 or 400 in turn; directory scan during uploads.",
-    "C18": "Also: delete-and-recreate under one name, a binary value of more than a mebibyte from file and pipe, checkPutText regenerated from the source (generated_checkPutText), acknowledged_bytes_kept under failing saves. Sixth round: CLI values longer than 512/1024/4096 bytes with a multi-byte character across the boundary or turning binary after it; the calls behind checkPutText's atoms as facts. Seventh round: --from-file on a named pipe.",
-    "C19": "Also: hasExpired regenerated from the source (generated_hasExpired), an updater whose builder rejects the initial value (the name stays pinned), caches behind the store under concurrency. Sixth round: access_time_persisted at Close; read/shutdown/restart/wait/poll sequences. Seventh round: access-time refresh through both handles of a late second flight; rule_holds_across_restart.",
-    "C20": "Also: encoding/json asked independently for every ,json field, secrets with trailing data, a second value of the same struct type, the same Fields applied again after a repaired secret, a secret literally named json. Sixth round: pre-filled fields; the same Fields applied to a second store with shorter values. Seventh round: the documented pattern NewStore(Secrets: f.Secrets()) + Apply with unsorted tags; a lookups-disabled store that knows some of the names.",
+    "C03": "Also: reopened copies with modes 0600/0644/0640/0400, a multi-megabyte database, order independence of the clear document (schema_order_independent), and a concurrent leg (at quiescence the file holds what the server serves). Sixth round: restarts inside histories, stray files under temporary names next to the database, crafted schema-v1 files with versions beyond 2^31 sealed by the harness's own writer. Seventh round: the database opened through a relative symbolic link from another working directory. T1 also ties the property's central functions statement by statement (fact_*_as_transcribed / fact_*_shape theorems in the property file).",
+    "C04": "Also: EACCES/EPERM in the fault enumeration, files that already exist with mode 0644, a follow-up save by the restarted process after every kill, and concurrent histories during which the state directory vanishes for moments. Sixth round: after every failed save a twin server on a copy of the file gets every later call and must answer alike (fault_leaves_served_state). T1 also ties the property's central functions statement by statement (fact_*_as_transcribed / fact_*_shape theorems in the property file).",
+    "C05": "Also: save failures inside the crypto histories (the key-encryption key must not be consulted), truncation to 0/1/2/len-1 bytes always, a reopen half way through every history, a save traced on a file that exists with mode 0644. Sixth round: one database over years of virtual time with the key service unreachable once open (kek_only_at_open). Seventh round: the backup family (what lies beside the database, with which modes, during an upload). T1 also ties the property's central functions statement by statement (fact_*_as_transcribed / fact_*_shape theorems in the property file).",
+    "C06": "Also: short writes (the device accepts half a record) followed by a probe call - every complete line of the stream must be one whole record (theorem log_lines_are_whole_records over the latched encoder; fresh_encoder_glues for the unlatched one); whether the Sync of a call's record had completed when the call returned, sequentially and on the concurrent calls' clock; exactly the required records over HTTP. Sixth round: calls after the audit log was closed must be refused and change nothing (fail_closed); very long names in records. Seventh round: two writers on one log file; a log truncated in place between records. T1 also ties the property's central functions statement by statement (fact_*_as_transcribed / fact_*_shape theorems in the property file).",
+    "C07": "Also: three more exhaustive alphabets ({a,b,*}, backslash with E and Q, percent with s and an open parenthesis), path-like names, panics as observations, and several hundred patterns evaluated from eight goroutines at once. Seventh round: rule sets decoded from JSON, three-pattern rules, names containing a whole pattern. T1 also ties the property's central functions statement by statement (fact_*_as_transcribed / fact_*_shape theorems in the property file).",
+    "C08": "Also: WhoIs failures that are context errors, media types that merely start with application/json, status tables and the get dispatch regenerated from the source (status_tables, generated_get_dispatch), wire bodies (Model/Wire). Sixth round: the body classifier is the harness's own mirror of the request shapes; versions beyond 32 bits, negative, fractional, quoted; every request is answered (watchdog). Seventh round: forwarding headers; loopback peers. T1 also ties the property's central functions statement by statement (fact_*_as_transcribed / fact_*_shape theorems in the property file).",
+    "C09": "Also: a gateway error on the client's first exchange, and concurrent histories (a conditional get naming V never receives V; a non-linearizable history that becomes linearizable without its conditional gets is blamed on them). Sixth round: a call or request that never returns is reported with the calls under way (four_outcomes). Seventh round: a compressing proxy on the client route; returned values wiped by the caller. T1 also ties the property's central functions statement by statement (fact_*_as_transcribed / fact_*_shape theorems in the property file).",
+    "C10": "Also: service failures that wrap context.DeadlineExceeded while every context is alive, cancellation (not only deadlines) during construction, construction under a watchdog, empty values in caches, untidy prefixes for struct-tagged names. Sixth round: outages of 35-95 s at construction with a live context; a crash inside the code under test is an observation and the partial trace is judged (init_complete). Seventh round: cache_or_file_suffices for file-backed clients with a cache. T1 also ties the property's central functions statement by statement (fact_*_as_transcribed / fact_*_shape theorems in the property file).",
+    "C11": "Also: same-bytes versions, a poll round abandoned by its starter and joined by a second caller, a poller watchdog, freshness of every handle after a completed refresh, cache_holds_same; the ticker period as written in the source, translated to Lean on every run (gen_pollPeriod, theorem cadence_generated over all intervals and all draws). Sixth round: a second store in the process while the first store's poll is held; the real ticker under virtual time (cadence) compared with the generated period expression. Seventh round: cadence with a slow service. T1 also ties the property's central functions statement by statement (fact_*_as_transcribed / fact_*_shape theorems in the property file).",
+    "C12": "Also: the late second flight, a held poll abandoned while the service moves on, retained slices that must never change, a failed updater lookup after which readers must still progress. T1 also ties the property's central functions statement by statement (fact_*_as_transcribed / fact_*_shape theorems in the property file).",
+    "C13": "Also: transient cache write failures, a slow synchronised cache with a cache-behind check at every quiescent point, files that exist with mode 0644 or longer contents. Sixth round: after every kill of a cache write a shorter document is written and must be exactly the file's content. Seventh round: polling-disabled configuration (flush_after_init); a failing lookup concurrent with successful ones. T1 also ties the property's central functions statement by statement (fact_*_as_transcribed / fact_*_shape theorems in the property file).",
+    "C14": "Also: histories with vanishing state directory (the search admits 'internal error, nothing changed' for calls whose save may have failed), list-heavy histories by an exact-name caller under lock contention, several callers putting the same new bytes at once, empty values. Sixth round: half of the histories restart the database between preparation and the concurrent calls; every_call_returns. Seventh round: the legacy capability name in half of the concurrent HTTP histories. T1 also ties the property's central functions statement by statement (fact_*_as_transcribed / fact_*_shape theorems in the property file).",
+    "C15": "Also: a second model with two concurrent getters (concurrent_gets_no_lost_update, unlocked_gets_lose_update), installs performed from inside the initial build and from inside a rebuild, rollbacks to earlier versions, a failing cache, a builder held while installs and Gets arrive; a third model with any number of updaters registered at any moment (every_updater_no_lost_update, late_registration_loses_update) tied to the source by the extracted order watch/read/build and the under-lock scan of register/install/notify (fact_watch_order). Sixth round: three updaters created at the same moment on a name that has to be looked up. Seventh round: an updater whose T is an interface type (closers and non-closers alternate); Model.Watchers carries every updater ever created (stale_list_loses_updater). T1 also ties the property's central functions statement by statement (fact_*_as_transcribed / fact_*_shape theorems in the property file).",
+    "C16": "Also: the defect D8 (a request failing with a context-flavoured error of its own was retried) found by its monitor no_auto_retry and kept as Mode.beforeD8 (d8_original_retries); cancellations carrying a cause; NewUpdater and Fields.Apply as routes to unknown names with lookups disabled. Sixth round: a second store looking up the same name at the same time; a patient caller among callers whose contexts have ended. Seventh round: a watchdog in the synctest/real-time families (a call that never returns is reported with what was under way). T1 also ties the property's central functions statement by statement (fact_*_as_transcribed / fact_*_shape theorems in the property file).",
+    "C17": "Also: uploads that never answer, 90-second uploads alternating with quick ones, a racing write followed by a long quiet stretch, histories that start on a reopened database, an occupied key answering 412 to conditional writes. Sixth round: the file shrinks between uploads; the task starts off the minute boundary. Seventh round: failed uploads answered 500, 403 or 400 in turn; directory scan during uploads. T1 also ties the property's central functions statement by statement (fact_*_as_transcribed / fact_*_shape theorems in the property file).",
+    "C18": "Also: delete-and-recreate under one name, a binary value of more than a mebibyte from file and pipe, checkPutText regenerated from the source (generated_checkPutText), acknowledged_bytes_kept under failing saves. Sixth round: CLI values longer than 512/1024/4096 bytes with a multi-byte character across the boundary or turning binary after it; the calls behind checkPutText's atoms as facts. Seventh round: --from-file on a named pipe. T1 also ties the property's central functions statement by statement (fact_*_as_transcribed / fact_*_shape theorems in the property file).",
+    "C19": "Also: hasExpired regenerated from the source (generated_hasExpired), an updater whose builder rejects the initial value (the name stays pinned), caches behind the store under concurrency. Sixth round: access_time_persisted at Close; read/shutdown/restart/wait/poll sequences. Seventh round: access-time refresh through both handles of a late second flight; rule_holds_across_restart. T1 also ties the property's central functions statement by statement (fact_*_as_transcribed / fact_*_shape theorems in the property file).",
+    "C20": "Also: encoding/json asked independently for every ,json field, secrets with trailing data, a second value of the same struct type, the same Fields applied again after a repaired secret, a secret literally named json. Sixth round: pre-filled fields; the same Fields applied to a second store with shorter values. Seventh round: the documented pattern NewStore(Secrets: f.Secrets()) + Apply with unsorted tags; a lookups-disabled store that knows some of the names. T1 also ties the property's central functions statement by statement (fact_*_as_transcribed / fact_*_shape theorems in the property file).",
 }
 
 NOT_YET = {}
